@@ -1,0 +1,19 @@
+//go:build verif
+
+// C02 / C07 (owner: con-c07): frames of the AHtree methods called by the commit-state functions of embedded/store
+// (performPrecommit, precommit, DiscardPrecommittedTxsSince). The tree's content is outside those functions' model:
+// results are arbitrary, and the methods write only the tree's own fields, caches and appendables (ASSUMED frames,
+// never checked here; the tree is never aliased with an ImmuStore, a Tx or a precommitBuffer).
+package ahtree
+
+//@ func (*AHtree).RootAt
+//@   assigns internal
+
+//@ func (*AHtree).Size
+//@   assigns internal
+
+//@ func (*AHtree).ResetSize
+//@   assigns internal
+
+//@ func (*AHtree).Append
+//@   assigns internal
